@@ -14,7 +14,7 @@ K_NAME = ('K_faults (Solver.solve_t_M / SolveAll.solve_M instantiated with PrimF
 RULE = ('every placement of a fault kind {NaN, +inf, -inf, warning-raising statement, Python exception} at (statement 0..2, pass 1..4, '
         'period 0..2) x errors in {raise, skip, ignore, replace, bogus} x failures x catch_first_error, with min_iter/max_iter drawn around the '
         'fault pass (fault on the last permitted pass, before min_iter, after max_iter), healing and persisting faults, pre-existing non-finite '
-        'check cells, both spellings of t; random multi-fault scripts; parser-built models producing the fault naturally (1/X, log(X), '
+        'check cells, pre- and post-hooks that raise, store or issue a warning, both spellings of t; random multi-fault scripts; parser-built models producing the fault naturally (1/X, log(X), '
         'exp(X)*exp(X), X/X, 1/0, growth to overflow, a fault in a later equation / a later pass); multi-period solve() with a fault in one '
         'period. Non-trivial = a fault was actually reached (non-finite check vector, warning, exception or pre-existing non-finite cell) '
         'or at least two passes ran; distinct by hash of the whole case.')
